@@ -331,7 +331,9 @@ public:
     {
         invariants();
 
-        return m_data.at(theIndex);
+        // The vector also contains the terminating null
+        // character, which is not part of the string.
+        return m_data.at(theIndex < m_size ? theIndex : m_data.size());
     }
 
     reference
@@ -339,7 +341,9 @@ public:
     {
         invariants();
 
-        return m_data.at(theIndex);
+        // The vector also contains the terminating null
+        // character, which is not part of the string.
+        return m_data.at(theIndex < m_size ? theIndex : m_data.size());
     }
 
     const XalanDOMChar*
